@@ -68,6 +68,14 @@ UNITS = [
     unit("c19_find_cap_ref_braced_any", ["C19"], MATCHER, "interpolate::verif_kani",
          "find_cap_ref on fully symbolic ${... buffers agrees with the library (anything up to the closing brace)",
          ["interpolate::find_cap_ref"], timeout=600),
+    unit("c19_find_iter", ["C19", "C10"], MATCHER, "verif_kani",
+         "Matcher::find_iter (default try_find_iter_at) over a symbolic span table on <=4 bytes yields exactly the regex "
+         "library's successive non-overlapping matches (empty match right after a match skipped)",
+         ["Matcher::try_find_iter_at", "Matcher::find_iter"], timeout=600),
+    unit("c19_captures_iter", ["C19", "C10"], MATCHER, "verif_kani",
+         "Matcher::captures_iter (default try_captures_iter_at, what replace_with_captures/Replacer::replace_all use) over "
+         "a symbolic span table yields exactly the regex library's successive matches",
+         ["Matcher::try_captures_iter_at", "Matcher::captures_iter"], timeout=600),
     unit("c19_interpolate_diff", ["C19"], MATCHER, "interpolate::verif_kani::diff",
          "grep_matcher::interpolate == regex_automata::util::interpolate::bytes (the pinned 0.4.7) on every template "
          "of <=3 symbols over {$,{,},1,2,a,-,0xFF}, 3 groups (one unset), one named",
@@ -202,17 +210,26 @@ FAMILIES = [
                 "slow line path end-to-end == grep model with passthru ON; symbolic hit table, invert, "
                 "line numbers, stop-on-nonmatch",
                 SLOW_E2E_FUNCS, timeout=600, rules=searcher_rules(2)),
-    ShapeFamily("c03_fast_confirmed", ["C03", "C01"], SEARCHER, CORE_MOD, GEN,
-                "FAST line path end-to-end (match_by_line_fast, find_by_line_fast, fast_invert, switch-to-slow) == grep model; "
-                "matcher reports Confirmed offsets; hit patterns, invert, stop-on-nonmatch, offset position enumerated in-harness; "
-                "A,B in 0..=2 and line numbers symbolic",
-                FAST_FUNCS, timeout=900, rules=searcher_rules(2), unwind=lambda sh: 40, shape_filter=lambda sh: sh.nl <= 3),
-    ShapeFamily("c03_fast_candidate", ["C03", "C01"], SEARCHER, CORE_MOD, GEN,
-                "fast line path == grep model; matcher reports Candidate offsets (candidates == hits), re-check on stripped line",
-                FAST_FUNCS, timeout=900, rules=searcher_rules(2), unwind=lambda sh: 40, shape_filter=lambda sh: sh.nl <= 3),
-    ShapeFamily("c03_fast_candidate_all", ["C03", "C01"], SEARCHER, CORE_MOD, GEN,
-                "fast line path == grep model; every line is a Candidate (maximal prefilter false positives)",
-                FAST_FUNCS, timeout=900, rules=searcher_rules(2), unwind=lambda sh: 40, shape_filter=lambda sh: sh.nl <= 3),
+    ShapeFamily("c16_fast_confirmed", ["C03", "C01", "C16"], SEARCHER, CORE_MOD, GEN,
+                "FAST line path end-to-end (match_by_line_fast, find_by_line_fast, fast_invert), matcher reports Confirmed "
+                "offsets: uninterrupted run == grep model, run interrupted at symbolic sink call k (stop or error) == prefix; "
+                "all hit patterns x invert x (A,B) in {(0,0),(1,1)} enumerated in-harness; k, stop/error, line numbering symbolic",
+                FAST_FUNCS, timeout=1200, rules=searcher_rules(2), unwind=lambda sh: 40,
+                quick_shapes=["q_two", "q_blank_mid", "q_crlf_mix", "q_blank_first"], shape_filter=lambda sh: sh.nl <= 3),
+    ShapeFamily("c16_fast_candidate_all", ["C03", "C01", "C16"], SEARCHER, CORE_MOD, GEN,
+                "fast line path, every line is a Candidate (maximal prefilter false positives, re-check on stripped line), "
+                "(A,B)=(1,1), with/without invert: model / prefix at symbolic k",
+                FAST_FUNCS, timeout=1200, rules=searcher_rules(2), unwind=lambda sh: 40,
+                quick_shapes=["q_two", "q_blank_mid", "q_crlf_mix"], shape_filter=lambda sh: sh.nl <= 3),
+    ShapeFamily("c16_fast_stop", ["C03", "C01", "C16"], SEARCHER, CORE_MOD, GEN,
+                "fast line path with stop-on-nonmatch (switch to the slow loop after the first match): model / prefix at symbolic k",
+                FAST_FUNCS, timeout=1200, rules=searcher_rules(2), unwind=lambda sh: 40,
+                quick_shapes=["q_two", "q_blank_mid"], shape_filter=lambda sh: sh.nl <= 3),
+    ShapeFamily("c01_find_by_line_fast", ["C01", "C03"], SEARCHER, CORE_MOD, GEN,
+                "Core::find_by_line_fast from a symbolic line-start position with fully symbolic hit/candidate/offset tables "
+                "and symbolic reporting mode (Confirmed/Candidate): returns exactly the first matching line's range",
+                ("Core::find_by_line_fast", "lines::locate", "lines::without_terminator"), timeout=900,
+                rules=searcher_rules(2), shape_filter=lambda sh: sh.nl >= 2),
     ShapeFamily("c02_reader_ctx", ["C02"], SEARCHER, CORE_MOD, GEN,
                 "ReadByLine over LineBufferReader, symbolic read sizes 1..=3, symbolic capacity 1..=4 (eager growth) "
                 "== grep model (== slice strategy); A,B in 0..=1, invert, line numbers",
